@@ -27,11 +27,32 @@
    C08_monitor_coverage_test: the executable coverage test of the correspondence monitor
         (Corr/C08.v, coveredb) decides exactly the predicate [covers] of the theorems.
 
+   "also delivered concurrently from several goroutines" (Model/FragConc.v: any number of
+    goroutines inside Process at once, one scheduled step = one mutex-protected phase of one
+    call, reassemblers are objects with identity; EVERY schedule, any calls)
+                                                                 -> C08_concurrent_never_panics (no panic,
+        no goroutine dies, map and list stay consistent, done <-> unlinked),
+        C08_concurrent_old_refuted (the code before /repo commit 3ed1739 panics on a concrete
+        two-goroutine schedule of the two-fragment datagram; the repaired code delivers it once),
+        C08_concurrent_sequential_refinement (whole-call schedules = the sequential model),
+        C08_concurrent_object_exact (per reassembler object: linearization of its r.process calls
+        and done-mark; consistent fragments -> delivered exactly once, by the call that first
+        completes the coverage in P2 order, byte for byte; every other call returns nothing),
+        C08_concurrent_completed_returns_nothing / C08_concurrent_done_returns_nothing (any
+        arguments: a call on a completed-but-not-yet-released, or on a released, reassembler
+        returns nothing and changes nothing),
+        C08_concurrent_return_is_p2 (Process returns what its r.process call returned),
+        C08_concurrent_example (hypotheses satisfiable: a 3-goroutine schedule through the
+        branch added by 3ed1739)
+
    Datagram sizes: the theorems hold for 1 <= |D| <= 65535, which includes the IPv4 maximum
-   payload 65515.  Calls are sequential; time.Now() is the explicit [c_now] of each call. *)
+   payload 65515.  time.Now() is the explicit [c_now] of each call.  The theorems above the
+   "concurrent" block are about sequential calls; the only assumption about the Go runtime in the
+   concurrent block is that sync.Mutex gives mutual exclusion (each phase atomic; see the header
+   of Model/FragConc.v for why that granularity loses nothing). *)
 From Coq Require Import ZArith Bool List Permutation.
-From NP Require Import Model.Frag Proofs.FragHeapP Proofs.FragReasmP Proofs.FragP Proofs.FragTopP Proofs.FragExactP
-  Proofs.FragCoverP.
+From NP Require Import Model.Frag Model.FragConc Proofs.FragHeapP Proofs.FragReasmP Proofs.FragP Proofs.FragTopP Proofs.FragExactP
+  Proofs.FragCoverP Proofs.FragConcP Proofs.FragConcSeqP.
 Import ListNotations.
 Open Scope Z_scope.
 
@@ -215,3 +236,97 @@ Theorem C08_monitor_coverage_test : forall fs n,
   coveredb (map (fun f => (i_first f, i_last f)) fs) n = true <-> covers fs n.
 Proof. exact coveredb_covers. Qed.
 Print Assumptions C08_monitor_coverage_test.
+
+(* ---- concurrent delivery (Model/FragConc.v) *)
+Theorem C08_concurrent_never_panics : forall high low timeout progs sched,
+  let cf := crun0 high low timeout progs sched in
+  let s := cf_s cf in
+  panics (trace s) = [] /\
+  Forall (fun th => t_pc th <> PCdead) (cf_thr cf) /\
+  c_fault s = false /\
+  NoDup (c_list s) /\
+  (forall id o, mlookup id (c_map s) = Some o <-> In o (c_list s) /\ r_id (getobj s o) = id) /\
+  (forall o, (o < length (c_objs s))%nat -> (r_done (getobj s o) = false <-> In o (c_list s))).
+Proof. exact concurrent_never_panics. Qed.
+Print Assumptions C08_concurrent_never_panics.
+
+Theorem C08_concurrent_old_refuted :
+  length raceProgs = 2%nat /\
+  panics (trace (cf_s (crun0_old 1000 500 10 raceProgs raceSched))) = [1%nat] /\
+  rets (trace (cf_s (crun0 1000 500 10 raceProgs (raceSched ++ [0; 1]%nat)))) =
+    [(0%nat, ([], false, false)); (0%nat, (raceD, true, false)); (1%nat, ([], false, false))].
+Proof. exact concurrent_old_refuted. Qed.
+Print Assumptions C08_concurrent_old_refuted.
+
+Theorem C08_concurrent_sequential_refinement : forall high low timeout progs bs,
+  let cf := crun0 high low timeout progs (blocks bs) in
+  let ser := serialize progs bs in
+  let fo := run (newFragmentation high low timeout) (map snd ser) in
+  cabs (cf_s cf) = fst fo /\
+  rets (trace (cf_s cf)) = combine (map fst ser) (snd fo) /\
+  length (snd fo) = length ser /\
+  Forall (fun th => t_pc th = PC1) (cf_thr cf).
+Proof. exact concurrent_sequential_refinement. Qed.
+Print Assumptions C08_concurrent_sequential_refinement.
+
+Theorem C08_concurrent_object_exact : forall D high low timeout progs sched o,
+  1 <= zlen D <= 65535 ->
+  let s := cf_s (crun0 high low timeout progs sched) in
+  let h := ohist o (trace s) in
+  Forall (frag_of D) (hfrags h) ->
+  ((o < length (c_objs s))%nat -> replay (creation (getobj s o)) h = (getobj s o, houts h)) /\
+  (forall pre fin out post, h = pre ++ HP2 fin out :: post ->
+     let seen := hfrags pre in
+     p_panic out = false /\ p_err out = false /\
+     (p_done out = false -> p_res out = []) /\
+     (p_done out = true -> p_res out = D /\ covers (seen ++ [fin]) (zlen D) /\ ~ covers seen (zlen D)) /\
+     (covers (seen ++ [fin]) (zlen D) -> ~ covers seen (zlen D) -> ~ In HMark pre ->
+        p_done out = true /\ p_res out = D)) /\
+  (forall pre1 f1 o1 post1 pre2 f2 o2 post2,
+     h = pre1 ++ HP2 f1 o1 :: post1 -> h = pre2 ++ HP2 f2 o2 :: post2 ->
+     p_done o1 = true -> p_done o2 = true -> pre1 = pre2).
+Proof. exact concurrent_object_exact. Qed.
+Print Assumptions C08_concurrent_object_exact.
+
+Theorem C08_concurrent_completed_returns_nothing : forall r first last more pl, RComp r ->
+  rprocess r first last more pl = (r, mkPres [] false 0 false false).
+Proof. exact rprocess_completed. Qed.
+Print Assumptions C08_concurrent_completed_returns_nothing.
+
+Theorem C08_concurrent_done_returns_nothing : forall r first last more pl, r_done r = true ->
+  rprocess r first last more pl = (r, mkPres [] false 0 false false).
+Proof. exact rprocess_done. Qed.
+Print Assumptions C08_concurrent_done_returns_nothing.
+
+Theorem C08_concurrent_return_is_p2 : forall high low timeout progs sched pre t res done post,
+  trace (cf_s (crun0 high low timeout progs sched)) = pre ++ EvRet t res done :: post ->
+  exists o fin out, last_p2 t (rev pre) = Some (o, fin, out) /\ res = p_res out /\ done = p_done out.
+Proof. exact concurrent_return_is_p2. Qed.
+Print Assumptions C08_concurrent_return_is_p2.
+
+Theorem C08_concurrent_example :
+  let s := cf_s (crun0 1000 500 10 exProgs3 exSched3) in
+  1 <= zlen raceD <= 65535 /\
+  ohist 0 (trace s) =
+    [HP2 (frag_in raceA) (mkPres [] false 8 false false);
+     HP2 (frag_in raceB) (mkPres raceD true 8 false false);
+     HP2 (frag_in raceB) nothing;
+     HMark] /\
+  Forall (frag_of raceD) (hfrags (ohist 0 (trace s))) /\
+  ~ covers [frag_in raceA] (zlen raceD) /\
+  covers [frag_in raceA; frag_in raceB] (zlen raceD) /\
+  rets (trace s) = [(0%nat, ([], false, false)); (1%nat, (raceD, true, false)); (2%nat, ([], false, false))] /\
+  c_list s = [] /\ c_size s = 0 /\ length (c_objs s) = 1%nat.
+Proof. exact concurrent_example. Qed.
+Print Assumptions C08_concurrent_example.
+
+Theorem C08_concurrent_refinement_example :
+  let progs := [[raceA; raceB]; [raceB]] in
+  let bs := [0; 1; 0; 1]%nat in
+  map snd (serialize progs bs) = [raceA; raceB; raceB] /\
+  rets (trace (cf_s (crun0 1000 500 10 progs (blocks bs)))) =
+    [(0%nat, ([], false, false)); (1%nat, (raceD, true, false)); (0%nat, ([], false, false))] /\
+  snd (run (newFragmentation 1000 500 10) [raceA; raceB; raceB]) =
+    [([], false, false); (raceD, true, false); ([], false, false)].
+Proof. exact sequential_refinement_example. Qed.
+Print Assumptions C08_concurrent_refinement_example.
